@@ -190,7 +190,13 @@ def one(ctx, rng, xr, ws, fmt, d):
             opts = {"ntime": None if rng.random() < 0.5 else int(rng.integers(1, nt + 1))}
             fq = ds.freq.values
             # the sea/swell cutoff of the parameter block must lie inside the frequency range
-            again = lambda: (ds.spec.to_octopus(path, fcut=float(fq[0] + 0.5 * (fq[-1] - fq[0])), **opts), ws.read_octopus(path))[1]
+            wds, wkw = ds, dict(opts)
+            if rng.random() < 0.2:
+                # positions handed to the writer as arguments (documented for datasets that carry no lon / lat variables)
+                wds = ds.drop_vars(["lon", "lat"])
+                wkw.update(lons=np.array(ds["lon"].values), lats=np.array(ds["lat"].values))
+                rec.note("octopus_positions_given_as_arguments")
+            again = lambda: (wds.spec.to_octopus(path, fcut=float(fq[0] + 0.5 * (fq[-1] - fq[0])), **wkw), ws.read_octopus(path))[1]
             back = again()
             key0 += "|gz=%s|ntime=%s" % (gz, "all" if opts["ntime"] is None else ("lt" if opts["ntime"] < nt else "eq"))
         elif base == "json":
